@@ -80,6 +80,10 @@ type ResponseWriter interface {
 
 const notWritten = -1
 
+// firstReadFromLen is the number of bytes copied through Write before ReadFrom switches to the underlying
+// writer's io.ReaderFrom (same as net/http's sniffLen).
+const firstReadFromLen = 512
+
 type recorder struct {
 	http.ResponseWriter
 	size     int
@@ -190,14 +194,21 @@ func (r *recorder) WriteString(s string) (n int, err error) {
 // Any error except EOF encountered during the read is also returned.
 func (r *recorder) ReadFrom(src io.Reader) (n int64, err error) {
 	if rf, ok := r.ResponseWriter.(io.ReaderFrom); ok {
-		n, err = rf.ReadFrom(src)
-		if err == nil {
-			if r.size == notWritten {
-				r.size = 0
+		if r.size == notWritten {
+			// Nothing has been sent yet: copy the first bytes through Write (like net/http does before switching to
+			// ReadFrom), so that the header is forwarded and accounted exactly as without the fast path, and only
+			// if there is something to send.
+			bufp := copyBufPool.Get().(*[]byte)
+			n, err = io.CopyBuffer(onlyWrite{r}, io.LimitReader(src, firstReadFromLen), *bufp)
+			copyBufPool.Put(bufp)
+			if err != nil || n < firstReadFromLen {
+				return n, err
 			}
-			r.size += int(n)
 		}
-		return n, err
+		// The bytes accepted by the underlying writer count, even when the copy eventually fails.
+		n0, err := rf.ReadFrom(src)
+		r.size += int(n0)
+		return n + n0, err
 	}
 
 	// Fallback in compatibility mode.
